@@ -111,7 +111,7 @@ PROPS = {
         "oracle_engine": {"tamper": "stream"},
         "trusted": [SYMBOLIC_CRYPTO],
         "technique": "Lean 4 theorem (invariant + induction over adversarial wire, symbolic AEAD) + correspondence/tamper fault enumeration on real streams",
-        "level_text": "recv_prefix / recv_prefix_midstream: for every send history in both directions and every Dolev-Yao rewriting of the wire (own bytes, the sender's seals replayed/re-headed, the RECEIVER's own seals reflected), ReceiveCompleteMessage delivers a prefix of the sent messages, under one stated session hypothesis (the two fresh IVs differ in their last 12 bytes: two independent random draws); a reflected first frame announces the receiver's own IV and is refused (reflection_rejected is the concrete case that failed before the fix) (model theorem, kernel-checked); no_bypass: no frame is accepted without AES-GCM open. Model tied to the code by the tamper engine (single-fault catalogue + multi-faults on real keyed streams, compared with the model).",
+        "level_text": "recv_prefix / recv_prefix_midstream: for every send history in both directions and every Dolev-Yao rewriting of the wire (own bytes, the sender's seals replayed/re-headed, the RECEIVER's own seals reflected), ReceiveCompleteMessage delivers a prefix of the sent messages, under one stated session hypothesis (the two fresh IVs differ in their last 12 bytes: two independent random draws); a reflected first frame announces the receiver's own IV and is refused (reflection_rejected is the concrete case that failed before the fix) (model theorem, kernel-checked); recv_prefix_incremental / _midstream: the same prefix guarantee for the incremental API (StartMessageRead -> readNextFrame, ReadMessageBytes(n) until end-of-message for every n, EndMessageRead): a wire that ends inside a multi-frame message is an error, never a truncated message; recv_prefix_frames: plain ReceiveFrame (GetSecret/GetFile) hands over only a prefix of the frame payloads sent; no_bypass / no_bypass_recvFrame: no frame is accepted without AES-GCM open. Model tied to the code by the tamper engine (single-fault catalogue incl. end flags 0..10 + multi-faults on real keyed streams, every fault presented to ReceiveCompleteMessage, Message.GetRemainingBytes, the incremental API, ReceiveFrame and GetSecret, transcripts of secrets with encryption switched off around them; compared with the model).",
         "level_note": "Symbolic AEAD (free constructors); receive errors terminal; model hand-written and validated by correspondence; constants regenerated from source.",
         "assumptions": ["a receive error is terminal (the application stops reading)", "crypto/aes, crypto/cipher GCM are correct"],
     },
